@@ -3,6 +3,7 @@ mod builtins;
 mod freevars;
 mod gen_alias;
 mod gen_dict;
+mod gen_io;
 mod gen_fault;
 mod gen_flow;
 mod gen_freeze;
